@@ -6,6 +6,7 @@ mod util;
 mod c01;
 mod c04;
 mod c05;
+mod c06;
 mod c15;
 mod walk;
 
@@ -45,6 +46,7 @@ fn main() {
         "c01" => c01::run(&o, deck),
         "c04" => c04::run(&o, deck),
         "c05" => c05::run(&o, deck),
+        "c06" => c06::run(&o, deck),
         "c15" => c15::run(&o, deck),
         "walk" => walk::run(&o, deck, "walk"),
         x => {
